@@ -573,6 +573,30 @@ fn nested_rings(exact: bool) -> BoxedStrategy<Vec<Part>> {
         .boxed()
 }
 
+/// Relations BETWEEN the rings of one shape: one time in three a ring's X/Y sequence (optionally Z and M as well) is
+/// copied onto another ring, whatever the two rings' roles.
+fn with_repeated_ring(rings: BoxedStrategy<Vec<Part>>) -> BoxedStrategy<Vec<Part>> {
+    (rings, 0u8..6, any::<u16>(), any::<u16>())
+        .prop_map(|(mut r, rel, a, b)| {
+            if rel < 2 && r.len() >= 2 {
+                let i = gen::pick(a, r.len());
+                let mut j = gen::pick(b, r.len());
+                if i == j {
+                    j = (i + 1) % r.len();
+                }
+                let src = r[i].pts.clone();
+                if rel == 0 {
+                    r[j].pts = src;
+                } else {
+                    // same outline, other heights and measures
+                    r[j].pts = src.iter().enumerate().map(|(k, v)| [v[0], v[1], F::of(v[2].v() + 10.0 + k as f64), F::of(k as f64)]).collect();
+                }
+            }
+            r
+        })
+        .boxed()
+}
+
 impl RandomProp for Geo {
     fn strategy(_env: &Env) -> BoxedStrategy<GeoCase> {
         let simple_ty = prop_oneof![
@@ -590,7 +614,7 @@ impl RandomProp for Geo {
         let simple = simple_ty.clone().prop_flat_map(move |t| gen::geom(t, cfg)).prop_map(GeoCase::Simple);
         let poly_ty = prop_oneof![Just(Ty::Polygon), Just(Ty::PolygonM), Just(Ty::PolygonZ)];
         let poly = (poly_ty, any::<bool>()).prop_flat_map(|(ty, exact)| {
-            nested_rings(exact).prop_map(move |mut rings| {
+            with_repeated_ring(nested_rings(exact)).prop_map(move |mut rings| {
                 // M / Z values ride along
                 for r in rings.iter_mut() {
                     for (i, v) in r.pts.iter_mut().enumerate() {
@@ -606,10 +630,16 @@ impl RandomProp for Geo {
             })
         });
         let patch_kinds = prop_oneof![Just(2i32), Just(3i32), Just(4i32), Just(5i32)];
-        let patch = proptest::collection::vec((patch_kinds, proptest::collection::vec(gen::vertex(Ty::Multipatch, cfg), 1..6)).prop_map(|(k, p)| Part { kind: k, pts: p }), 1..6)
+        let patch = with_repeated_ring(proptest::collection::vec((patch_kinds, proptest::collection::vec(gen::vertex(Ty::Multipatch, cfg), 1..6)).prop_map(|(k, p)| Part { kind: k, pts: p }), 1..6).boxed())
             .prop_map(GeoCase::Patch);
         let gpoly = (proptest::collection::vec((proptest::collection::vec(xy(true), 1..7), proptest::collection::vec(proptest::collection::vec(xy(true), 1..6), 0..3)), 1..4), any::<bool>())
-            .prop_map(|(p, s)| GeoCase::GeoPolygons(p, s));
+            .prop_map(|(mut p, s)| {
+                // one time in four the second polygon repeats the first one's exterior
+                if p.len() >= 2 && p[0].0.len() % 4 == 0 {
+                    p[1].0 = p[0].0.clone();
+                }
+                GeoCase::GeoPolygons(p, s)
+            });
         let gpoly_any = (proptest::collection::vec((proptest::collection::vec(xy(false), 1..7), proptest::collection::vec(proptest::collection::vec(xy(false), 1..6), 0..3)), 1..4), any::<bool>())
             .prop_map(|(p, s)| GeoCase::GeoPolygons(p, s));
         let any_kinds = 0i32..=5;
